@@ -55,6 +55,11 @@ THEOREMS = [
     "BeyondVerif.C06.position_full_order",
     "BeyondVerif.C06.iter_interpolates_at_full_order",
     "BeyondVerif.C06.outputs_inside_tabulation",
+    "BeyondVerif.C06.output_props_distinct",
+    "BeyondVerif.C06.output_props_range",
+    "BeyondVerif.C06.outputs_props_distinct",
+    "BeyondVerif.C06.runReqs_own",
+    "BeyondVerif.C06.sibling_requests_independent",
 ]
 LEVEL_TEXT = ("Lean theorems over R about the four Butcher tableaux, the per-body attraction, the step-size update and MAX_ITER translated from "
               "keplernum.py on every run: all rooted-tree order conditions (Euler 1; RK4 all 8 up to order 4; RKF54 and DOPRI54 all 17 up to order 5 for "
@@ -66,7 +71,10 @@ LEVEL_TEXT = ("Lean theorems over R about the four Butcher tableaux, the per-bod
               "fresh object), the step is that of the tableau selected by the current method, copy() keeps every setting. The padding rule of _iter "
               "(loop condition, interp flag, padding count, order argument of Ephem(...) and DEFAULT_ORDER translated from the source on every run): "
               "whenever an output is interpolated the tabulation holds >= DEFAULT_ORDER points, starts at the start, reaches the stop and is interpolated "
-              "at order DEFAULT_ORDER however short the span; the same for the positioning phase of propagate(). The step model, the object histories "
+              "at order DEFAULT_ORDER however short the span; the same for the positioning phase of propagate(). The object graph of outputs (position of "
+              "self.copy() relative to the yield loop translated from the source): the propagators carried by all points of all outputs are pairwise "
+              "distinct and distinct from the receiver's, so requests on sibling points, interleaved in any order (bind at call, read at first "
+              "consumption), each return their own orbit's trajectory. The step model, the object histories "
               "and the tabulations are tied to KeplerNum._make_step/_accel, to real objects driven through the same histories, and to the Ephem objects "
               "the real _iter builds, by differential correspondence runs.")
 LEVEL_NOTE = ("the classical theorem 'order conditions up to p => global convergence at order p' is cited, not formalised; convergence of the real propagator, "
@@ -117,7 +125,8 @@ OPEN = ["accel_energy is the algebraic identity v.a + mu (r.v)/rho^3 = 0; the Ha
         "quadrature exactness and the linear test equation are stated per tableau with explicit polynomial coefficients, not as one theorem "
         "'bushy/tall-tree conditions => exactness' for an arbitrary tableau",
         "the object state machine has no `frame` / bound-orbit component (the `orbit` setter converts a copy at every Orbit.propagate / Orbit.iter call); "
-        "KNIter does not model Ephem.iter / the yielded dates (C08's model does)"]
+        "KNIter does not model Ephem.iter / the yielded dates (C08's model does)",
+        "runReqs models the binding only (which orbit a lazily started iterator integrates); settings changed on a sibling's propagator are oracle-only"]
 RULE = ("correspondence: the five method names incl. unknown ones (tableaux bit-exact), _accel with Earth/Moon/Sun combinations on random bound orbits "
         "(perigee 200 km .. GEO+, e <= 0.74), _make_step for all four methods, steps 5-120 s both signs, tol 1e-9..1e-2, rtol 1e-11 (step size exact when "
         "not shrunk); histories of 3-10 operations on ONE real KeplerNum object (assign method incl. upper-case / unknown names, step, tol, bodies; "
@@ -125,10 +134,13 @@ RULE = ("correspondence: the five method names incl. unknown ones (tableaux bit-
         "object (a difference there is a violation of the property itself); the Ephem objects (dates, order) the real _iter builds and its number of "
         "_make_step calls for every request form (explicit step smaller/equal/larger/incommensurate, date lists, ranges, backward, offset start, "
         "Orbit.ephem, propagate, native step, step is self.step, listeners) on spans of 1..10 steps, all four methods, against KNIter fed with the "
-        "observed accepted step sizes (exact); non-trivial = step != 0 resp. a call after a change resp. >= 1 integration step; distinct = distinct request "
+        "observed accepted step sizes (exact); identity partition of the propagators of the points of several real outputs and which trajectory "
+        "interleaved requests on sibling points return, against KNIter.outputsProps / runReqs; non-trivial = step != 0 resp. a call after a change resp. >= 1 integration step; distinct = distinct request "
         "line. oracle, cheap families first: short spans (1..10 integration steps, the twelve request forms, every method) iterate vs propagate vs "
         "analytical; one KeplerNum object re-used after changes of method / step / tol / bodies (also in place) / frame / maneuvers / bound orbit vs a "
-        "fresh propagator and vs the analytical solution; adaptive global and one-step error over <= 30 steps both directions; chained propagate keeps "
+        "fresh propagator and vs the analytical solution; sibling points of one output (iter / iter-step / ephem / propagate) as starts of "
+        "interleaved requests (zip, reversed consumption, propagate in between, random next(), a setting changed on one sibling) vs each point's own "
+        "fresh propagation, and one propagator object per point; adaptive global and one-step error over <= 30 steps both directions; chained propagate keeps "
         "(method, step, tol); then RK4/Euler observed order by step halving against an independent universal-variable Kepler solution, error bounds, "
         "energy/momentum drift, independence of output step, dates-vs-step, propagate-vs-iterate (all four methods); forward and backward targets. "
         "When a proof or a correspondence is broken the quick-tier sweep stops at the first failing input that is not a listed open finding.")
@@ -450,6 +462,29 @@ def translate_iter(tree, ephem_tree):
         if t != "N":
             raise U("_iter: order argument of " + what)
         return f"some {txt}"
+    # the object handed to every yielded point: `for orb in ephem_iter: yield orb.as_orbit(<arg>)`
+    loops = [s for s in fn.body if isinstance(s, ast.For) and ast.unparse(s.iter) == "ephem_iter"]
+    if len(loops) != 1 or len(loops[0].body) != 1 or not (isinstance(loops[0].body[0], ast.Expr) and isinstance(loops[0].body[0].value, ast.Yield)):
+        raise U("_iter: yield loop not recognised")
+    yv = loops[0].body[0].value.value
+    if not (isinstance(yv, ast.Call) and ast.unparse(yv.func) == loops[0].target.id + ".as_orbit" and len(yv.args) == 1 and not yv.keywords):
+        raise U("_iter: yielded expression " + ast.unparse(yv)[:80])
+    arg = yv.args[0]
+    if ast.unparse(arg) == "self.copy()":
+        where, ptxt, atxt = "inside the yield loop: one copy per point", "next + k", "n"
+    elif ast.unparse(arg) == "self":
+        where, ptxt, atxt = "the receiver itself", "recv", "0"
+    elif isinstance(arg, ast.Name):
+        defs = [s for s in ast.walk(fn) if isinstance(s, ast.Assign) and any(isinstance(t, ast.Name) and t.id == arg.id for t in s.targets)]
+        in_loop = any(d in list(ast.walk(loops[0])) for d in defs)
+        if len(defs) != 1 or in_loop or ast.unparse(defs[0].value) not in ("self.copy()", "self"):
+            raise U("_iter: origin of the propagator handed to the yielded points")
+        if ast.unparse(defs[0].value) == "self":
+            where, ptxt, atxt = "the receiver itself", "recv", "0"
+        else:
+            where, ptxt, atxt = "outside the yield loop: one copy per call, shared by all points", "next", "1"
+    else:
+        raise U("_iter: propagator handed to the yielded points: " + ast.unparse(arg)[:80])
     oa_pos = order_arg(pos_if[0].body, "the positioning phase")
     oa_main = order_arg(fn.body, "the march")
     return ("/- GENERATED by harness/props/C06.py from beyond/propagators/keplernum.py (`KeplerNum._iter`) and beyond/orbits/ephem.py on every run -/\n"
@@ -465,6 +500,11 @@ def translate_iter(tree, ephem_tree):
             f"def ephemOrderArgPos (len : Nat) : Option Nat := {oa_pos}\n\n"
             "/-- the `order` argument of `Ephem(ephem, ...)` over the requested span -/\n"
             f"def ephemOrderArg (len : Nat) : Option Nat := {oa_main}\n\n"
+            f"/-- `yield {ast.unparse(yv)}` — `{ast.unparse(arg)}` is made {where}.  Identity of the propagator object carried by the `k`-th\n"
+            "yielded point: `recv` = the receiver (`self`), `next` = first object identity not yet in use -/\n"
+            f"def pointPropId (recv next k : Nat) : Nat := {ptxt}\n\n"
+            "/-- number of propagator objects created for an output of `n` points -/\n"
+            f"def propsAllocated (n : Nat) : Nat := {atxt}\n\n"
             "end BeyondVerif.Generated.KNIterSrc\n")
 
 
@@ -724,6 +764,8 @@ def correspondence(ctx):
     corr_histories(ctx, out, mu)
     # 5. the tabulations `_iter` builds
     corr_iter(ctx, out, mu)
+    # 6. propagator identities of the outputs, interleaved requests on sibling points
+    corr_graph(ctx, out, mu)
     return out
 
 
@@ -1077,6 +1119,273 @@ def corr_iter(ctx, out, mu):
                      inp, observed={"ephems": [(len(d), o_, d[:1], d[-1:]) for d, o_ in obs], "make_step_calls": ncalls},
                      expected={"ephems": [(len(d), o_, d[:1], d[-1:]) for d, o_ in want], "make_step_calls": int(toks[5])})
         out.sample({"request": req[:120], "impl": [(len(d), o_) for d, o_ in obs], "model": [(len(d), o_) for d, o_ in want]}, limit=2)
+
+
+# ---------------------------------------------------------------- sibling points of one output: object graph and interleaved requests
+
+SIB_MODES = ["zip", "create-all-consume-reversed", "create-then-other-propagates", "random-next", "settings-leak"]
+
+
+def plan_siblings(rng, o, mode=None):
+    """points of ONE output of a KeplerNum propagation used as starts of further, interleaved requests"""
+    method = rng.choice(METHODS[1:])
+    h = q(rng.uniform(20, 120))
+    source = rng.choice(["iter", "iter-step", "ephem", "propagate"])
+    nsib = rng.choice([2, 2, 3])
+    mode = mode or rng.choice(SIB_MODES)
+    sib = []
+    for k in range(nsib):
+        req = rng.choice(["iter", "iter-step", "propagate"]) if mode != "zip" else "iter"
+        sib.append({"index": rng.randint(0, 11), "kick": [rng.uniform(-30, 30) for _ in range(3)], "req": req, "T": q(h * rng.uniform(2, 12)) * rng.choice([1, 1, -1]),
+                    "out_step": q(h * rng.choice([0.5, 1.7, 3.0]))})
+    if source == "propagate":
+        for k, s_ in enumerate(sib):
+            s_["index"] = k       # k-th propagate() result
+    else:
+        idx = rng.sample(range(12), nsib)
+        for s_, i_ in zip(sib, idx):
+            s_["index"] = i_
+    # events: ("create", i) / ("next", i) / ("propagate", i) / ("set", i, attr, value); well formed by construction
+    ev = []
+    iters = [k for k, s_ in enumerate(sib) if s_["req"] != "propagate"]
+    props = [k for k, s_ in enumerate(sib) if s_["req"] == "propagate"]
+    if mode == "settings-leak":
+        j = rng.randrange(nsib)
+        attr = rng.choice(["method", "step", "tol"])
+        val = {"method": rng.choice([m for m in METHODS if m != method]), "step": q(h * rng.choice([0.5, 2.0])), "tol": 10 ** rng.uniform(-7, -5)}[attr]
+        ev.append(("set", j, attr, val))
+    if mode in ("zip",):
+        ev += [("create", k) for k in iters] + [("next", k) for _ in range(4) for k in iters]
+    elif mode == "create-all-consume-reversed":
+        ev += [("create", k) for k in iters] + [("propagate", k) for k in props] + [("next", k) for k in reversed(iters) for _ in range(3)]
+    elif mode == "create-then-other-propagates":
+        if not iters:
+            sib[0]["req"] = "iter"
+            iters, props = [0], [k for k in props if k != 0]
+        a = iters[0]
+        others = [k for k in range(nsib) if k != a]
+        ev += [("create", a)]
+        for k in others:
+            ev += [("propagate", k)] if sib[k]["req"] == "propagate" else [("create", k), ("next", k)]
+        ev += [("next", a), ("next", a), ("next", a)]
+    else:
+        ev += [("create", k) for k in iters]
+        pool = [("next", k) for k in iters for _ in range(3)] + [("propagate", k) for k in props]
+        rng.shuffle(pool)
+        ev += pool
+    return {"method": method, "step": h, "tol": 10 ** rng.uniform(-5, -3), "source": source, "mode": mode, "siblings": sib, "events": [list(e) for e in ev]}
+
+
+def _sib_request(orb, s_, consume=None):
+    """the request of one sibling: an iterator (not started) or, for propagate, the result"""
+    from beyond.dates import timedelta
+    td = lambda x: timedelta(seconds=x)
+    if s_["req"] == "iter":
+        return orb.iter(stop=td(s_["T"]))
+    if s_["req"] == "iter-step":
+        return orb.iter(stop=td(s_["T"]), step=td(s_["out_step"]))
+    return orb.propagate(td(s_["T"]))
+
+
+def run_siblings(out, o, mu, plan, driver_trace=None):
+    import numpy as np
+    from beyond.orbits import Orbit
+    from beyond.dates import timedelta
+    from beyond.propagators.keplernum import KeplerNum
+    td = lambda x: timedelta(seconds=x)
+    h, sib = plan["step"], plan["siblings"]
+    orb0 = make(o["x0"], h, plan["method"], tol=plan["tol"])
+    recv = orb0.propagator
+    # --- outputs of the receiver; every object is kept alive so that identities are comparable
+    outputs = []
+    if plan["source"] == "propagate":
+        outputs = [[orb0.propagate(td(h * (2.5 + 3 * k)))] for k in range(len(sib))]
+        pts = [o_[0] for o_ in outputs]
+    else:
+        if plan["source"] == "iter":
+            pts = list(orb0.iter(stop=td(11 * h)))
+        elif plan["source"] == "iter-step":
+            pts = list(orb0.iter(stop=td(7.7 * h), step=td(0.7 * h)))
+        else:
+            pts = list(orb0.ephem(stop=td(11 * h), step=td(h)))
+        outputs = [pts, [orb0.propagate(td(3.3 * h))], list(orb0.iter(stop=td(2 * h)))]
+    inp = case_inp(o, h, 0.0, method=plan["method"], tol=plan["tol"], plan=plan)
+    out.count(key=("siblings", plan["mode"], plan["source"], repr(plan["events"]), h, o["rp"]), kind="siblings-" + plan["mode"], source=plan["source"],
+              method=plan["method"])
+    # --- (1) object graph: every point of every output carries its own propagator, none is the receiver's
+    allp = [(oi, pi, p_.propagator) for oi, o_ in enumerate(outputs) for pi, p_ in enumerate(o_)]
+    graph = Outcome()
+    seen = {}
+    for oi, pi, pr in allp:
+        if pr is recv or pr is orb0.propagator:
+            graph.fail("output-carries-receiver-propagator", "a point returned by KeplerNum carries the propagator object of the orbit it was computed from",
+                       inp, observed=(oi, pi))
+            break
+        if id(pr) in seen:
+            fam = "output-points-share-propagator" if seen[id(pr)][0] == oi else "outputs-share-propagator"
+            graph.fail(fam, "two points returned by KeplerNum carry the SAME propagator object (a propagator is bound to one orbit at a time: requests on the two "
+                            "points interfere)", inp, observed={"first": seen[id(pr)], "second": (oi, pi)}, expected="one propagator object per point")
+            break
+        seen[id(pr)] = (oi, pi)
+    ids = {id(recv): "R"}
+    part = [[ids.setdefault(id(pr), len(ids) - 1) for oi2, _, pr in allp if oi2 == oi] for oi in range(len(outputs))]
+    if driver_trace is not None:
+        driver_trace["partition"] = part
+        driver_trace["sizes"] = [len(o_) for o_ in outputs]
+    try:
+        _siblings_behaviour(out, o, mu, plan, inp, pts, driver_trace, part)
+    finally:
+        out.failures.extend(graph.failures)      # reported after the behavioural failing input, if any
+
+
+def _siblings_behaviour(out, o, mu, plan, inp, pts, driver_trace, part):
+    import numpy as np
+    from beyond.orbits import Orbit
+    from beyond.dates import timedelta
+    from beyond.propagators.keplernum import KeplerNum
+    td = lambda x: timedelta(seconds=x)
+    h, sib = plan["step"], plan["siblings"]
+    if driver_trace is not None:
+        # position (output, point) of every sibling in the outputs
+        driver_trace["where"] = [((k, 0) if plan["source"] == "propagate" else (0, s_["index"] % len(pts))) for k, s_ in enumerate(sib)]
+    # --- (2) behaviour: interleaved requests on sibling points against each point's own fresh propagation
+    S = []
+    for s_ in sib:
+        pt = pts[s_["index"] % len(pts)]
+        pt[3:] = np.asarray(pt[3:]) + np.asarray(s_["kick"])        # in place: a different trajectory for each sibling
+        S.append(pt)
+    cfg = [{"method": plan["method"], "step": h, "tol": plan["tol"]} for _ in sib]
+    for e in plan["events"]:
+        if e[0] == "set":
+            cfg[e[1]][e[2]] = e[3]
+
+    def reference(k, c):
+        f = Orbit([float(v) for v in S[k].base], S[k].date, "cartesian", "EME2000",
+                  KeplerNum(td(c["step"]), earth(), method=c["method"], tol=c["tol"]))
+        r = _sib_request(f, sib[k])
+        return [r] if sib[k]["req"] == "propagate" else list(r)
+    refs = [reference(k, cfg[k]) for k in range(len(sib))]
+    its, got = {}, {k: [] for k in range(len(sib))}
+    for e in plan["events"]:
+        k = e[1]
+        if e[0] == "set":
+            setattr(S[k].propagator, e[2], td(e[3]) if e[2] == "step" else e[3])
+        elif e[0] == "create":
+            its[k] = _sib_request(S[k], sib[k])
+        elif e[0] == "propagate":
+            got[k].append(_sib_request(S[k], sib[k]))
+        else:
+            try:
+                got[k].append(next(its[k]))
+            except StopIteration:
+                pass
+    trace = []
+    for k in range(len(sib)):
+        for n, g in enumerate(got[k]):
+            want = refs[k][n] if n < len(refs[k]) else None
+            ok = want is not None and g.date == want.date and float(np.linalg.norm(vec(g)[:3] - vec(want)[:3])) <= 1e-6
+            who = k
+            if not ok:
+                # whose trajectory / whose settings is it?
+                who = None
+                for j in range(len(sib)):
+                    alt = refs[j]
+                    if j != k and n < len(alt) and alt[n].date == g.date and float(np.linalg.norm(vec(g)[:3] - vec(alt[n])[:3])) <= 1e-6:
+                        who = j
+                leak = None
+                if who is None:
+                    for j in range(len(sib)):
+                        if j != k and cfg[j] != cfg[k]:
+                            alt = reference(k, cfg[j])
+                            if n < len(alt) and alt[n].date == g.date and float(np.linalg.norm(vec(g)[:3] - vec(alt[n])[:3])) <= 1e-6:
+                                leak = [a for a in cfg[j] if cfg[j][a] != cfg[k][a]]
+                fam = ("sibling-returns-other-points-trajectory" if who is not None else
+                       "sibling-settings-leak-" + "+".join(leak) if leak else "sibling-request-differs-from-own-propagation")
+                d = None if want is None else float(np.linalg.norm(vec(g)[:3] - vec(want)[:3]))
+                out.fail(fam + "-" + plan["mode"], "requests on two points of one KeplerNum output, interleaved: a point's iterator / propagate() does not return what "
+                         "the same request returns when the point is propagated on its own"
+                         + (f" (it returns the trajectory of sibling {who})" if who is not None else f" (it integrates with the {', '.join(leak)} set on a sibling)" if leak else ""),
+                         dict(inp, sibling=k, item=n), observed={"date": str(g.date), "dpos": d}, expected={"date": None if want is None else str(want.date), "dpos": 0.0})
+                return
+            trace.append((k, n, who))
+    if driver_trace is not None:
+        driver_trace["replies"] = trace
+
+
+def corr_graph(ctx, out, mu):
+    """object identities of the propagators of real outputs, and which trajectory interleaved sibling requests return, against
+    `KNIter.outputsProps` / `KNIter.runReqs` (built on `pointPropId`, read from the position of `self.copy()` in `_iter`)"""
+    rng = ctx.rng
+    cases = []
+    for k in range(ctx.n(30, 400)):
+        o = gen_orbit(rng, mu)
+        plan = plan_siblings(rng, o, mode=SIB_MODES[k % 4])        # settings changes are not in the model
+        tr = {}
+        sink = Outcome()
+        try:
+            with _Budget(20):
+                run_siblings(sink, o, mu, plan, driver_trace=tr)
+        except Exception as e:
+            out.tally("siblings-request-raised=" + type(e).__name__)
+            continue
+        if "partition" not in tr:
+            continue
+        # model requests: first consumption of an iterator = `n`, creation = `c`, propagate = `p`
+        started, toks = set(), []
+        for e in plan["events"]:
+            if e[0] == "create":
+                toks.append(f"c{e[1]}")
+            elif e[0] == "propagate":
+                toks.append(f"p{e[1]}")
+            elif e[0] == "next" and e[1] not in started:
+                started.add(e[1])
+                toks.append(f"n{e[1]}")
+        cases.append((plan, tr, "c06graph 0 1 " + " ".join(str(n) for n in tr["sizes"]), "c06reqs 0 1 " + " ".join(toks), sink, o))
+    g_rep = core.Driver().run([c[2] for c in cases])
+    # the model's identities of the siblings' propagators, from the model's own object graph
+    rq2s = []
+    for (plan, tr, rq1, rq2, sink, o), gr in zip(cases, g_rep):
+        parts = [[t for t in part.split(",") if t] for part in gr.split(" ; ")]
+        try:
+            pof = [parts[oi][pi] for oi, pi in tr["where"]]
+        except (IndexError, KeyError):
+            pof = []
+        rq2s.append("c06reqs " + str(len(pof)) + " " + " ".join(pof) + " " + " ".join(rq2.split()[3:]))
+    replies = g_rep + core.Driver().run(rq2s)
+    for n, (plan, tr, rq1, rq2, sink, o) in enumerate(cases):
+        inp = case_inp(o, plan["step"], 0.0, method=plan["method"], plan=plan)
+        # partition of identities, canonical: first occurrence; the receiver is object 0 in the model
+        ids = {"0": "R"}
+        model = [[ids.setdefault(t, len(ids) - 1) for t in part.split(",") if t] for part in replies[n].split(" ; ")]
+        out.count(key=rq1 + plan["source"] + str(n), kind="output-propagator-identities", source=plan["source"])
+        if model != tr["partition"]:
+            out.fail("c06-graph", "which points of KeplerNum outputs share a propagator object differs between the implementation and the model", inp,
+                     observed=tr["partition"], expected=model)
+            continue
+        rep = replies[len(cases) + n].split()
+        out.count(key=rq2 + str(n), kind="sibling-requests-" + plan["mode"])
+        if "replies" in tr:
+            # first reply of every iterator / every propagate: which sibling's trajectory
+            first = {}
+            for k, i_, who in tr["replies"]:
+                first.setdefault((k, i_ if plan["siblings"][k]["req"] == "propagate" else 0), who)
+            real = []
+            cnt = {}
+            for t in rq2.split()[3:]:
+                k = int(t[1:])
+                if t[0] == "n":
+                    real.append(str(first.get((k, 0), "?")))
+                elif t[0] == "p":
+                    real.append(str(first.get((k, cnt.get(k, 0)), "?")))
+                    cnt[k] = cnt.get(k, 0) + 1
+            if "?" not in real and real != rep:
+                out.fail("c06-reqs", "which point's trajectory interleaved requests return differs between the implementation and the model", inp, observed=real, expected=rep)
+        else:
+            # the real run failed its own references: does the model predict interference too?
+            own = [t[1:] for t in rq2.split()[3:] if t[0] in "np"]
+            if rep == own:
+                out.fail("c06-reqs", "interleaved requests on sibling points interfere in the implementation but not in the model", inp,
+                         observed=[f["family"] for f in sink.failures[:1]], expected=rep)
 
 
 # ---------------------------------------------------------------- oracle on the real API
@@ -1669,7 +1978,7 @@ def oracle(ctx, widened):
     for k in range(nA):
         if found():
             break
-        if time.time() - t_start > (120 if ctx.thorough else 60 if widened else 14):
+        if time.time() - t_start > (120 if ctx.thorough else 60 if widened else 12):
             out.notes.append(f"oracle phase A stopped after {k} of {nA} orbits: time budget of the tier reached")
             break
         o, h, T = draw()
@@ -1682,6 +1991,9 @@ def oracle(ctx, widened):
         ma = ADAPTIVE[(k // 2) % 2]
         t_ = 1e-3 if k % 4 < 2 else tol
         run(ma, dict(case_inp(o, h, Ts), method=ma, tol=t_), check_adaptive, out, o, h, Ts, mu, ma, t_)
+        if k % 3 == 0:
+            ps_ = plan_siblings(rng, o, mode=SIB_MODES[(k // 3) % len(SIB_MODES)])
+            run("siblings", dict(case_inp(o, ps_["step"], 0.0), plan=ps_), run_siblings, out, o, mu, ps_)
         if k % 2 == 0:
             rp_ = plan_reuse(rng, o, first=REUSE_ATTRS[(k // 2) % len(REUSE_ATTRS)] if k % 4 == 0 else None)
             run("reuse", dict(case_inp(o, rp_["initial"]["step"], 0.0), plan=rp_), run_reuse, out, o, mu, rp_)
@@ -1696,7 +2008,7 @@ def oracle(ctx, widened):
         o, h, T = draw()
         out.tally("full-3-orbit-horizon" if abs(T) >= 0.99 * 3 * o["period"] else "horizon<3 orbits")
         inp = case_inp(o, h, T)
-        if time.time() - t_start > (480 if ctx.thorough else 330 if widened else 42):
+        if time.time() - t_start > (480 if ctx.thorough else 330 if widened else 34):
             out.notes.append(f"oracle stopped after {k} of {ncases} orbits: time budget of the tier reached")
             break
         run("rk4", inp, check_rk4, out, o, h, T, mu, big and k % 4 == 0)
@@ -1773,6 +2085,8 @@ def replay(f):
         guarded(out, B, "short-span-" + plan["form"], i, run_short, out, o, mu, plan)
     elif fam.startswith("reuse"):
         guarded(out, B, "reuse", i, run_reuse, out, o, mu, i["plan"])
+    elif fam.startswith("sibling") or fam.startswith("output"):
+        guarded(out, B, "siblings", i, run_siblings, out, o, mu, i["plan"])
     elif fam.startswith("rk4"):
         guarded(out, B, "rk4", i, check_rk4, out, o, i["step"], i["T"], mu, False)
     elif fam.startswith("euler"):
